@@ -20,7 +20,7 @@ impl = genrun.impl
 
 def gen(rng, tier):
     cases = []
-    ndefs = 30 if tier == "quick" else 700
+    ndefs = 60 if tier == "quick" else 700
     for i in range(ndefs):
         doc = defgen.rnd_definition(rng, apid_name="PKT_APID" if i % 4 else "APPLICATION_ID")
         dobj = defgen.try_build(doc)
